@@ -118,8 +118,12 @@ def scalings(cfg, env, tag):
     if cfg.mc is None:
         return [F.one, F.el(2), F.el(-1), g.randrange(2, cfg.p)]
     s = tuple(g.randrange(cfg.p) for _ in range(len(cfg.mc)))
-    two_i = tuple([0, 2] + [0] * (len(cfg.mc) - 2))
-    return [F.one, F.el(2), two_i, s]
+    k = len(cfg.mc)
+    two_i = tuple([0, 2] + [0] * (k - 2))
+    # coefficients that sum to 0 mod p (a multiple of 1 - i), and "almost one" (first coefficient 1, another non-zero)
+    sum_zero = tuple([7, cfg.p - 7] + [0] * (k - 2))
+    almost_one = tuple([1] + [0] * (k - 2) + [5])
+    return [F.one, F.el(2), two_i, sum_zero, almost_one, s]
 
 
 def _cmp(r, key, args, exp, got):
